@@ -2,6 +2,7 @@ package vapp
 
 import (
 	"encoding/json"
+	"fmt"
 	"math/big"
 	"sort"
 	"time"
@@ -29,13 +30,14 @@ import (
 // GenesisSpec is the abstract description of a genesis; everything in it is deterministic.
 type GenesisSpec struct {
 	ChainID      string           `json:"chain_id"`
-	OLTDecimal   int64            `json:"olt_decimal"` // 2 in the small-amount family: 1 OLT = 100 units
-	Fork         int64            `json:"fork"`        // FrankensteinBlock; 0 = disabled
-	Accounts     []string         `json:"accounts"`    // names; each gets Balance units of OLT
-	Balance      int64            `json:"balance"`     // units of OLT per account and per stake account
-	Validators   []GenValidator   `json:"validators"`  // initial validators with their stake (whole OLT)
-	Candidates   []string         `json:"candidates"`  // further validator identities without initial stake
-	Witnesses    []string         `json:"witnesses"`   // validator names that are ethereum witnesses
+	OLTDecimal   int64            `json:"olt_decimal"`  // 2 in the small-amount family: 1 OLT = 100 units
+	Fork         int64            `json:"fork"`         // FrankensteinBlock; 0 = disabled
+	Accounts     []string         `json:"accounts"`     // names; each gets Balance units of OLT
+	EthAccounts  []string         `json:"eth_accounts"` // e<N>: secp256k1 accounts with Ethereum-style addresses (OLVM senders), funded like Accounts
+	Balance      int64            `json:"balance"`      // units of OLT per account and per stake account
+	Validators   []GenValidator   `json:"validators"`   // initial validators with their stake (whole OLT)
+	Candidates   []string         `json:"candidates"`   // further validator identities without initial stake
+	Witnesses    []string         `json:"witnesses"`    // validator names that are ethereum witnesses
 	Staking      StakingOpt       `json:"staking"`
 	Evidence     EvidenceOpt      `json:"evidence"`
 	Proposal     ProposalOpt      `json:"proposal"`
@@ -147,6 +149,17 @@ func EthGenesis() GenesisSpec {
 	return gs
 }
 
+// OlvmGenesis: the EVM is switched on from block 1 (the Frankenstein fork raises the minimum self
+// delegation to 500000 units at that block, so the validators stake more than that); three EVM
+// accounts e1..e3 are funded next to the native ones.
+func OlvmGenesis() GenesisSpec {
+	gs := DefaultGenesis()
+	gs.Fork = 1
+	gs.Validators = []GenValidator{{"v1", 600000}, {"v2", 500000}}
+	gs.EthAccounts = []string{"e1", "e2", "e3"}
+	return gs
+}
+
 // EthGenesis5: five witnesses (threshold 4 of 5), a witness count that is not of the form 3f+1.
 func EthGenesis5() GenesisSpec {
 	gs := EthGenesis()
@@ -190,6 +203,14 @@ func BuildGenesis(gs GenesisSpec) *Genesis {
 	}
 	for _, n := range gs.Accounts {
 		addAcct(NewAccount(n))
+	}
+	for _, n := range gs.EthAccounts {
+		e := NewEthAcct(n)
+		g.Names[Hex(e.Addr)] = n
+		balances = append(balances, consensus.BalanceState{Address: e.Addr, Currency: "OLT", Amount: amt(gs.Balance)})
+		for nonce := uint64(0); nonce < 24; nonce++ {
+			g.Names[Hex(ContractAddr(e.Addr, nonce))] = fmt.Sprintf("c:%s:%d", n, nonce)
+		}
 	}
 	var staking, witness []consensus.Stake
 	var genVals []tmtypes.GenesisValidator
